@@ -1,5 +1,5 @@
 from concurrent.futures import Executor
-from threading import Thread, Lock
+from threading import Thread, Lock, RLock, get_ident
 from collections import namedtuple, deque
 from functools import partial
 import logging
@@ -116,8 +116,12 @@ class ThrottleExecutor(CanCustomizeBind, Executor):
         # Set whenever the submit thread takes jobs off the queue, to release a
         # submit() blocked on a full queue (block=True)
         self._unblock_event = get_event()
-        # True once shutdown() has been requested (possibly still waiting for
-        # the shutdown gate, which a blocked submit() holds)
+        # Blocked submit() calls take turns on this lock rather than on the
+        # shutdown gate: shutdown(), and submit() from callbacks running on the
+        # submit thread, must not get stuck behind a submit() which is waiting
+        # for the queue to drain.
+        self._block_lock = RLock()
+        # True once shutdown() has been requested
         self._closing = False
         self._running_count = AtomicInt()
         self._throttle = count if callable(count) else lambda: count
@@ -137,9 +141,16 @@ class ThrottleExecutor(CanCustomizeBind, Executor):
         self._thread.start()
 
     def submit(self, fn, *args, **kwargs):  # pylint: disable=arguments-differ
-        with self._shutdown.ensure_alive():
-            self._block_until_ready(self._eval_throttle())
+        if self._block and self._thread.ident != get_ident():
+            # (The submit thread itself never waits: nobody else drains the queue.)
+            with self._block_lock:
+                self._block_until_ready(self._eval_throttle())
+                return self._enqueue(fn, args, kwargs)
+        self._eval_throttle()
+        return self._enqueue(fn, args, kwargs)
 
+    def _enqueue(self, fn, args, kwargs):
+        with self._shutdown.ensure_alive():
             out = ThrottleFuture(self)
             track_future(out, type="throttle", executor=self._name)
 
@@ -152,8 +163,8 @@ class ThrottleExecutor(CanCustomizeBind, Executor):
             return out
 
     def shutdown(self, wait=True, **_kwargs):
-        # A submit() blocked on a full queue holds the shutdown gate: release it
-        # first, otherwise we would wait for the queue to drain (maybe forever).
+        # Release any submit() blocked on a full queue: it shall fail now rather
+        # than wait for the queue to drain (maybe forever).
         self._closing = True
         self._unblock_event.set()
         if self._shutdown():
@@ -166,11 +177,10 @@ class ThrottleExecutor(CanCustomizeBind, Executor):
 
     def _block_until_ready(self, throttle_val):
         while self._block and not self._shutdown.is_shutdown:
-            # Only one submit() can be here at a time (we hold the shutdown gate),
+            # Only one submit() can be here at a time (we hold _block_lock),
             # so clear / check / wait cannot lose a wake-up.
             self._unblock_event.clear()
             if self._closing:
-                # don't keep shutdown() waiting behind us
                 return
             if throttle_val is None or len(self._to_submit) < throttle_val:
                 return
